@@ -150,6 +150,11 @@ def round_record(ctx: Ctx, rid: int, rng: random.Random, kind: str) -> dict | No
             shape = cb.Frustum(P([0, 0, 0]), P([0, 0, 2]), P([1, 0, 0]), 0.4 * s)
         elif kind == "elbow":
             shape = cb.Elbow(P([0, 0, 0]), P([1, 0, 0]), V([0, 0, 1]), 1.0, P([3, 0, 0]), V([0, 1, 0]), 0.7 * s)
+        elif kind == "extruded_ring":
+            # hollow shapes: no core at all, every operation reaches the outer surface
+            shape = cb.ExtrudedRing(P([0, 0, 0]), P([0, 0, 2]), P([1.5, 0, 0]), 0.7 * s, rng.choice([4, 6, 8]))
+        elif kind == "expanded_ring":
+            shape = cb.ExtrudedRing.expand(cb.Cylinder(P([0, 0, 0]), P([0, 0, 2]), P([1, 0, 0])), 0.6 * s)
         elif kind == "onecore":
             sketch = cb.OneCoreDisk(P([0, 0, 0]), P([1, 0, 0]), V([0, 0, 1]))
         elif kind == "fourcore":
@@ -250,7 +255,7 @@ def run(ctx: Ctx) -> None:
             recs.append(r)
             if len(set(dims)) >= 2:
                 ctx.nontrivial.add(f"{kind}:{dims}")
-    for kind in ["cylinder", "semicylinder", "frustum", "elbow", "onecore", "fourcore", "halfdisk", "oval", "qspline", "hspline", "fspline"]:
+    for kind in ["cylinder", "semicylinder", "frustum", "elbow", "extruded_ring", "expanded_ring", "onecore", "fourcore", "halfdisk", "oval", "qspline", "hspline", "fspline"]:
         for _ in range(1 if ctx.tier == "quick" else 4):
             r = round_record(ctx, len(recs) + 1, rng, kind)
             if r is not None:
